@@ -10,6 +10,7 @@
 
 mod depgraph;
 mod shapes;
+mod typeexpr;
 mod reference;
 mod remap;
 
@@ -183,6 +184,10 @@ struct Case {
     /// dimension, see shapes.rs)
     #[serde(default, skip_serializing_if = "Option::is_none")]
     variant_shape: Option<shapes::VariantShape>,
+    /// one field of the description mentions its type through a type expression (field-type
+    /// dimension, see typeexpr.rs)
+    #[serde(default, skip_serializing_if = "Option::is_none")]
+    type_expr: Option<typeexpr::TypeExpr>,
 }
 
 #[derive(Serialize, Deserialize, Clone, Debug, PartialEq, Eq, PartialOrd, Ord)]
@@ -244,6 +249,7 @@ fn numbering_of(fx: &Fixtures, case: &Case) -> BTreeMap<String, Numbering> {
         fx.max_id[c]
             + case.dep_graph.as_ref().map_or(0, |g| depgraph::extra_ids(g, c))
             + case.variant_shape.as_ref().map_or(0, |v| shapes::extra_ids(v, c))
+            + case.type_expr.as_ref().map_or(0, |t| typeexpr::extra_ids(t, c))
     };
     match r {
         Renumber::Identity => {}
@@ -411,6 +417,11 @@ fn execute(fx: &Fixtures, case: &Case) -> RunResult {
             shapes::apply(&mut k, vs, fx.max_id[name]);
             retyped = Some(k);
         }
+        if let Some(te) = case.type_expr.as_ref().filter(|t| t.krate == name) {
+            let mut k = retyped.take().unwrap_or_else(|| (**c).clone());
+            typeexpr::apply(&mut k, te, fx.max_id[name]);
+            retyped = Some(k);
+        }
         let mut out = match (numbering.get(name).copied(), retyped) {
             (None | Some(Numbering::Identity), Some(k)) => k,
             (None | Some(Numbering::Identity), None) => (**c).clone(),
@@ -559,6 +570,7 @@ fn baseline_case(description: &str, deps: &[String]) -> Case {
         declared_swap: None,
         dep_graph: None,
         variant_shape: None,
+        type_expr: None,
     }
 }
 
@@ -588,6 +600,7 @@ fn plan(fx: &Fixtures, description: &str, base: &RunOut, tier: Tier, scope: &BTr
         declared_swap: None,
         dep_graph: None,
         variant_shape: None,
+        type_expr: None,
     };
     let mut cases = vec![];
 
@@ -970,6 +983,9 @@ fn describe_case(fx: &Fixtures, c: &Case) -> String {
     if let Some(vs) = &c.variant_shape {
         s += &format!(", {}", shapes::describe(fx, vs));
     }
+    if let Some(te) = &c.type_expr {
+        s += &format!(", {}", typeexpr::describe(fx, te));
+    }
     if let Some(g) = &c.dep_graph {
         s += &format!(", description synthesized with crate references [{}]", depgraph::shape_name(g));
     }
@@ -1011,6 +1027,9 @@ fn replay(fx: &Fixtures, path: &str) -> i32 {
     }
     if case.variant_shape.is_some() {
         return shapes::replay(fx, &case);
+    }
+    if case.type_expr.is_some() {
+        return typeexpr::replay(fx, &case);
     }
     println!("step 1: unperturbed run of description {} (facts ascending id, default load priority)", case.description);
     let probe = match execute(fx, &baseline_case(&case.description, &[])) {
@@ -1184,6 +1203,7 @@ fn main() {
     let mut samples = Samples::new(64);
     let dep_graphs = depgraph::run_dimension(&fx, &base, tier, &reporter, &deadline, &mut samples);
     let variant_shapes = shapes::run_dimension(&fx, &base, tier, &reporter, &deadline, &mut samples);
+    let type_exprs = typeexpr::run_dimension(&fx, &base, tier, &reporter, &deadline, &mut samples);
 
     // ---- plan -----------------------------------------------------------------------------------
     // designated description of a dependent crate: fewest loaded crates, then name
@@ -1483,6 +1503,15 @@ fn main() {
             skipped.insert(("altered descriptions".into(), "variant-shape".into()), v.skipped);
         }
     }
+    if let Some(v) = &type_exprs {
+        runs.fetch_add(v.runs, Ordering::Relaxed);
+        compared += v.compared;
+        evaluations += v.evaluations;
+        states.extend(v.states.iter().cloned());
+        if v.skipped > 0 {
+            skipped.insert(("altered descriptions".into(), "type-expr".into()), v.skipped);
+        }
+    }
     let total_runs = runs.load(Ordering::Relaxed);
     let baseline_fps: BTreeSet<(String, u64)> = base.iter().map(|(d, b)| (d.clone(), b.fingerprint)).collect();
     let distinct_nontrivial = states.difference(&baseline_fps).count()
@@ -1491,7 +1520,7 @@ fn main() {
         skipped.insert(("synthesized crate graphs".into(), "dep-graph".into()), dg.skipped);
     }
     let total_skipped: u64 = skipped.values().sum();
-    let exhaustive = total_skipped == 0 && base.len() == EXAMPLES.len() && dep_graphs.is_some() && variant_shapes.is_some() && !dimensions_only;
+    let exhaustive = total_skipped == 0 && base.len() == EXAMPLES.len() && dep_graphs.is_some() && variant_shapes.is_some() && type_exprs.is_some() && !dimensions_only;
     times.sort_by(|a, b| a.partial_cmp(b).unwrap());
     loader_times.sort_by(|a, b| a.partial_cmp(b).unwrap());
     let mut per_description = serde_json::Map::new();
@@ -1559,11 +1588,13 @@ fn main() {
             "declared-swap": "semantic counterpart of the order families: for every enum that reaches the formatter (per-item scope as above) and every pair of neighbouring non-skipped variants, the two trade places in the declared variants list; the registry must be the unperturbed one with exactly those two indices exchanged",
             "dep-graph": "crate-reference graphs with transitive discovery, synthesized from the bundled descriptions by re-typing fields: every DAG on the root and up to 3 further crates x every load order (bound and counts under dependency_graphs)",
             "variant-shape": "one variant of an app enum rewritten in memory to each shape serde allows (unit, tuple/braced with 0, 1, 2 fields, with skipped fields, whole variant skipped), judged against what serde-reflection traces for that shape (bound, serde facts and counts under variant_shapes)",
+            "type-expr": "one field of an app container mentions its type T (local, or from a dependent crate) through every type expression of length <= 3 over Option<_>, Vec<_>, (_, u8); registry closed, T's subtree intact, field format = rendering of the expression, nothing else moved (bound and counts under field_type_expressions)",
             "natural": "unowned runs (real hash-map order, real work-list order): a sample, not part of the exhaustiveness claim",
             "relevant_items": "nodes of the edge relation of the unperturbed run + impls of App/Effect/Capability/Operation, their associated types, their self types, and the fields of App self types",
         },
         "dependency_graphs": dep_graphs.as_ref().map_or(json!("not run: the descriptions it is built from were excluded"), |dg| dg.coverage.clone()),
         "variant_shapes": variant_shapes.as_ref().map_or(json!("not run: the descriptions it is built from were excluded"), |v| v.coverage.clone()),
+        "field_type_expressions": type_exprs.as_ref().map_or(json!("not run: a development filter excluded descriptions"), |v| v.coverage.clone()),
         "per_description": per_description,
         "descriptions": base.keys().collect::<Vec<_>>(),
         "distinct_outcomes": outcomes.values().map(|s| s.len()).sum::<usize>(),
@@ -1599,6 +1630,7 @@ fn main() {
             ),
             "the dependency-graph dimension covers every crate-reference DAG on one root (tap_to_pay) and up to three further crates (crux_time, crux_kv, crux_platform in the stated assignments), one representative per topological labelling, under every load order; larger graphs, other roots, cycles between crates and references to crates without a bundled description are outside the space; its descriptions are bundled ones with re-typed fields, not rustdoc output",
             "the variant-shape dimension rewrites one variant at a time, with primitive (u32/u64) fields, in app-crate enums of the stated descriptions; shapes using serde attributes other than field-level and variant-level skip (flatten, with, tag, other, default variants), generic payloads and enums left without any variant are outside the space",
+            "the field-type dimension alters one field at a time and uses only the constructors crux_cli's parser supports today (Option, Vec, tuples); arrays, slices, Box, maps and user generics are outside it (probed, noted)",
             "order is owned at the three fact vectors, the formatter's edge vector and the crate work list; iteration inside the datalog engine (ascent, FxHash) is deterministic given those and is not permuted separately",
             "only the 7 bundled example descriptions and the 5 bundled crux_* descriptions are inputs; they are snapshots (rustdoc format 42) and cannot be regenerated here",
             "protocol-type agreement compares crux_cli's output on the bundled snapshots with serde-reflection traced from the current sources; a difference that serde's own rules reproduce on the snapshot is attributed to snapshot age and reported, not flagged",
